@@ -144,31 +144,36 @@ def prepare_groups(ctx, cases):
         p = os.path.join(d, "sm_configs.inc")
         if not os.path.exists(p) or open(p).read() != txt:
             open(p, "w").write(txt)
-        res.append(("sm_" + key, ["-I" + d], cs))
+        res.append(("sm_" + key, ["-I" + d, "-O0", "-g0"], cs))   # -O0 -g0: a third of the compile time, sanitizers unaffected
     return res
 
 
 # ---------------------------------------------------------------- lock-step with the extracted model
 class Model:
-    """one process of build/btmodel_sm in model mode; deterministic, so a prefix can be replayed to probe"""
+    """build/btmodel_sm in model mode. Two long-lived processes (spawning is expensive): one holds the case
+    being built, the other replays its prefix to probe (the model is deterministic)."""
+    procs = {}
 
     def __init__(self):
         self.bin = os.path.join(BUILD, "btmodel_sm")
-        self.p = None
         self.cfg = None
         self.ops = []
 
-    def _start(self):
-        self.p = subprocess.Popen([self.bin, "model"], stdin=subprocess.PIPE, stdout=subprocess.PIPE, text=True, bufsize=1)
+    @classmethod
+    def _proc(cls, which, binary):
+        p = cls.procs.get(which)
+        if p is None or p.poll() is not None:
+            p = subprocess.Popen([binary, "model"], stdin=subprocess.PIPE, stdout=subprocess.PIPE, text=True, bufsize=1)
+            cls.procs[which] = p
+        return p
 
-    def _send(self, line):
-        self.p.stdin.write(line + "\n")
-        self.p.stdin.flush()
-        return self.p.stdout.readline().rstrip("\n")
+    def _send(self, line, which="main"):
+        p = self._proc(which, self.bin)
+        p.stdin.write(line + "\n")
+        p.stdin.flush()
+        return p.stdout.readline().rstrip("\n")
 
     def case(self, cfg):
-        if self.p is None:
-            self._start()
         self.cfg, self.ops = list(cfg), []
         self._send("CASE x " + " ".join(cfg))
 
@@ -177,23 +182,24 @@ class Model:
         return self._send(line)
 
     def probe(self, extra):
-        """outputs of `extra` after the current prefix, in a scratch process"""
-        q = Model()
-        q.case(self.cfg)
+        """outputs of `extra` after the current prefix, in the scratch process"""
+        self._send("CASE p " + " ".join(self.cfg), "probe")
         for o in self.ops:
-            q._send(o)
-        out = [q._send(o) for o in extra]
-        q.close()
-        return out
+            self._send(o, "probe")
+        return [self._send(o, "probe") for o in extra]
 
     def close(self):
-        if self.p is not None:
+        pass
+
+    @classmethod
+    def shutdown(cls):
+        for p in cls.procs.values():
             try:
-                self.p.stdin.close()
-                self.p.wait(timeout=5)
+                p.stdin.close()
+                p.wait(timeout=5)
             except Exception:
-                self.p.kill()
-            self.p = None
+                p.kill()
+        cls.procs.clear()
 
 
 class Peer:
